@@ -133,7 +133,7 @@ func (sc *scenario) step(rng *report.Rand) {
 	case kind < 5: // ageing tick(s)
 		n := 1 + rng.Intn(3)
 		sc.hist = append(sc.hist, fmt.Sprintf("age x%d", n))
-		sc.s.Tick(time.Duration(n) * time.Minute)
+		sc.s.Tick(time.Duration(n) * 10 * time.Second)
 		after := sc.own()
 		if !sc.rangeCheck(after, "ageing") {
 			return
@@ -263,22 +263,35 @@ func runSequence(r *report.Run, conf routing.ProphetConfig, steps int, rng *repo
 	})
 }
 
-// gateGrid: every ordering of (own, peer) predictability for the destination over a 5-value grid, set up through events.
+// gateGrid: orderings of (own, advertised) predictability for the destination. Beta is 0, so summary vectors never
+// change the node's own values; own(far) is produced by k encounters with far itself.
 func gateGrid(r *report.Run, i int) error {
-	grid := []float64{0, math.SmallestNonzeroFloat64, 0.25, 1 - 1.0/(1<<53), 1}
-	ownV, peerV := grid[i%5], grid[(i/5)%5]
-	unknownPeer := i >= 25
+	type ownCase struct {
+		pinit float64
+		k     int
+	}
+	owns := []ownCase{{0.25, 0}, {0.25, 1}, {0.25, 2}, {1, 1}}
+	peers := []float64{0, math.SmallestNonzeroFloat64, 0.25, 0.4375, 1 - 1.0/(1<<53), 1}
+	oc := owns[i%len(owns)]
+	pi := (i / len(owns)) % (len(peers) + 1)
+	unknownPeer := pi == len(peers)
+	peerV := 0.0
+	if !unknownPeer {
+		peerV = peers[pi]
+	}
 	return bubble.Run(nil, func(t *testing.T) {
 		rc := nodesim.RoutingConf("prophet")
-		rc.ProphetConf = routing.ProphetConfig{PInit: 1, Beta: 1, Gamma: 1, AgeInterval: "1h"}
+		rc.ProphetConf = routing.ProphetConfig{PInit: oc.pinit, Beta: 0, Gamma: 1, AgeInterval: "1h"}
 		s, err := nodesim.New(nodesim.Config{Routing: rc})
 		if err != nil {
 			return
 		}
 		defer s.Close()
 		p := s.Core.VerifAlgorithm().(*routing.Prophet)
-		// own(far) = ownV: helper h is encountered (P(h) = 1 with PInit 1) and advertises far = ownV (Beta 1 => own(far) = ownV)
-		s.PeerUp("h")
+		for k := 0; k < oc.k; k++ {
+			s.PeerUp("far")
+			s.PeerDown("far")
+		}
 		mk := func(from string, dst string, v float64, seq uint64) []byte {
 			e, _ := bpv7.NewEndpointID(dst)
 			m := model.Bundle{Version: 7, CRC: 2, Flags: model.FNoFragment, Dst: model.Dtn("node", ""), Src: model.Dtn(from, ""), Rpt: model.Dtn(from, ""),
@@ -287,16 +300,13 @@ func gateGrid(r *report.Run, i int) error {
 			w, _ := m.Encode(nil)
 			return w
 		}
-		_ = s.Deliver("h", mk("h", "dtn://far/", ownV, 1))
-		s.PeerDown("h")
 		s.PeerUp("x")
 		if !unknownPeer {
 			_ = s.Deliver("x", mk("x", "dtn://far/", peerV, 2))
 		}
-		own := p.VerifPredictabilities()
 		far, _ := bpv7.NewEndpointID("dtn://far/")
 		x, _ := bpv7.NewEndpointID("dtn://x/")
-		gotOwn := own[far]
+		gotOwn := p.VerifPredictabilities()[far]
 		gotPeer := p.VerifPeerPredictabilities()[x][far]
 		b, _ := bpv7.Builder().CRC(bpv7.CRC32).Source("dtn://node/app").Destination("dtn://far/").CreationTimestampNow().Lifetime("24h").
 			PayloadBlock(nodesim.Payload("g", 4)).Build()
@@ -327,6 +337,9 @@ func gateGrid(r *report.Run, i int) error {
 		}
 		if want && !sent {
 			r.Count("grid.not_offered_although_greater_(not_demanded)", 1)
+		}
+		if !want {
+			r.Count("grid.withheld_when_not_greater", 1)
 		}
 		r.Nontrivial("grid", bits(gotOwn), bits(gotPeer), unknownPeer)
 	})
@@ -398,21 +411,21 @@ func TestCheck(t *testing.T) {
 	r := report.Start(t, "C19")
 	defer r.Finish()
 
-	r.Group("sequences", r.Pick(200, 2000), func(i int, rng *report.Rand) {
-		conf := routing.ProphetConfig{PInit: prob(rng), Beta: prob(rng), Gamma: prob(rng), AgeInterval: "1m"}
-		if err := runSequence(r, conf, r.Pick(120, 1000), rng); err != nil {
+	r.Group("sequences", r.Pick(96, 2000), func(i int, rng *report.Rand) {
+		conf := routing.ProphetConfig{PInit: prob(rng), Beta: prob(rng), Gamma: prob(rng), AgeInterval: "10s"}
+		if err := runSequence(r, conf, r.Pick(100, 1000), rng); err != nil {
 			r.Violation("c19.node-deadlock-or-panic", err.Error(), map[string]interface{}{"config": fmt.Sprintf("%+v", conf)})
 		}
 		if i == 0 {
-			r.Sample(map[string]interface{}{"config": fmt.Sprintf("%+v", conf), "steps": r.Pick(120, 1000)})
+			r.Sample(map[string]interface{}{"config": fmt.Sprintf("%+v", conf), "steps": r.Pick(100, 1000)})
 		}
 	})
-	r.Group("gate-grid", 30, func(i int, rng *report.Rand) {
+	r.Group("gate-grid", 28, func(i int, rng *report.Rand) {
 		if err := gateGrid(r, i); err != nil {
 			r.Violation("c19.node-deadlock-or-panic", err.Error(), map[string]interface{}{"workload": "gate-grid", "i": i})
 		}
 	})
-	r.Exhaustive("forwarding gate: 5x5 grid of (own, advertised) predictabilities + unknown-peer row")
+	r.Exhaustive("forwarding gate: 4 own values x 6 advertised values + unknown-peer row")
 	r.Group("concurrent", r.Pick(50, 500), func(i int, rng *report.Rand) {
 		if err := concurrent(r, i, rng); err != nil {
 			r.Violation("c19.node-deadlock-or-panic", err.Error(), map[string]interface{}{"workload": "concurrent"})
